@@ -76,7 +76,10 @@ pub fn dispatch(_ctx: &mut Ctx, op: &str, f: &[&str]) -> Option<String> {
         // further families live in their own files (fam_cxx.rs); chain them here
         _ => match crate::fam_c33::dispatch(_ctx, op, f) {
             Some(s) => Some(s),
-            None => crate::fam_c32::dispatch(_ctx, op, f),
+            None => match crate::fam_c32::dispatch(_ctx, op, f) {
+                Some(s) => Some(s),
+                None => crate::fam_c19::dispatch(_ctx, op, f),
+            },
         },
     }
 }
